@@ -132,11 +132,13 @@ class MetricReceiver(CarbonServerProtocol, TimeoutMixin):
       events.pauseReceivingMetrics.addHandler(self.pauseReceiving)
       events.resumeReceivingMetrics.addHandler(self.resumeReceiving)
 
-    if state.metricReceiversPaused:
-      self.pauseReceiving()
-      if not state.metricReceiversPaused:
-        # receivers were resumed while we were pausing this one
-        self.resumeReceiving()
+      # (only a receiver that listens for the resume event may start out paused:
+      # without flow control nothing would ever resume it)
+      if state.metricReceiversPaused:
+        self.pauseReceiving()
+        if not state.metricReceiversPaused:
+          # receivers were resumed while we were pausing this one
+          self.resumeReceiving()
 
     state.connectedMetricReceiverProtocols.add(self)
     checkIfAcceptingConnections()
